@@ -602,10 +602,25 @@ def run(ctx):
             if mt != t:
                 htexts.append(mt); hexp.append(None); hkind.append('hand-style near miss: ' + mk)
                 ctx.case(('hand near miss', mt), nontrivial=True)
+    # the list of `cpp_reader_refuses_malformed` (read from the Lean source): the real parser must refuse every one of them
+    import os, re
+    lean_src = open(os.path.join(os.path.dirname(os.path.dirname(os.path.dirname(os.path.abspath(__file__)))), 'lean', 'DimodProofs', 'LpReader.lean')).read()
+    blk = lean_src[lean_src.index('def malformedTexts'):]
+    blk = blk[:blk.index(']\n') + 1]
+    malformed = [t.encode().decode('unicode_escape') for t in re.findall(r'^\s*\[?"((?:[^"\\]|\\.)*)"', blk, re.M)]
+    if len(malformed) < 20:
+        ctx.fail('correspondence', 'lean/DimodProofs/LpReader.lean', 'malformedTexts not found', f'{len(malformed)} texts extracted')
+    for t in malformed:
+        htexts.append(t); hexp.append('REFUSE'); hkind.append('malformed text of the refusal theorem')
+        ctx.case(('malformed', t), nontrivial=True)
     hreal = H.real_batch(htexts)
     for t, e, kd, real in zip(htexts, hexp, hkind, hreal):
         ctx.tick(kd + {'ok': '', 'exc': ' (refused)', 'nonfinite': ' (non-finite number read)', 'abort': ' (debug assertion)'}[real[0]])
-        if e is not None and (real[0] != 'ok' or real[1] != e):
+        if e == 'REFUSE':
+            if real[0] != 'exc':
+                ctx.fail('correspondence', 'lp.loads (malformed text)', 'a text of cpp_reader_refuses_malformed is not refused by the real parser',
+                         f'lp.loads gives {real}', detail=dict(text=t[:500]))
+        elif e is not None and (real[0] != 'ok' or real[1] != e):
             ctx.fail('correspondence', 'lp.loads (hand-style text)', 'real parser vs reference reading of the generation data',
                      f'lp.loads gives {real} ; the text denotes {e}', detail=dict(text=t[:1500]))
         lines.append('lpread ' + t.encode().hex()); expect.append(('HAND', real)); meta.append(('lp.loads (' + kd + ') vs C++ reader model', t))
